@@ -11,7 +11,7 @@
 (***************************************************************************)
 EXTENDS TwigSyntax, Json
 
-CONSTANTS MaxConds, MaxList, MaxSetLen
+CONSTANTS MaxConds, MaxList, MaxSetLen, MaxStr
 VARIABLE cs
 
 ch(c) == <<c>>
@@ -91,6 +91,10 @@ StrList(n) == VLg([i \in 1..n |-> VS(<<96 + i>>)], "strs")
 IntsTyped(n) == VLg([i \in 1..n |-> VI(10 * i)], "ints")
 Strings == {<<>>, <<104>>, <<104, 233>>, <<104, 233, 121>>, <<233>>, <<8364, 97>>, <<32, 32>>}   \* "", h, hé, héy, é, €a, 2 spaces
 
+\* longer strings (6 .. MaxStr code points): letters with one two-byte (e-acute) or three-byte (euro sign) character at every
+\* position, and letters only -- a string is walked by code point whatever its length and wherever its wide characters stand
+LongStrings == UNION {{[i \in 1..n |-> IF i = p THEN wide ELSE 97 + ((i - 1) % 26)] : p \in 0..n, wide \in {233, 8364}} : n \in 6..MaxStr}
+
 LoopProg(seqE, hasEl) == <<For("x", "", seqE, Probe("x"), IF hasEl THEN <<T1(69)>> ELSE <<>>, hasEl), T1(46)>>
 
 SeqSources ==
@@ -103,6 +107,7 @@ SeqSources ==
     \cup {[e |-> Lit(IntList(n)), ctx |-> EmptyFn, tag |-> "listlit"] : n \in 0..MaxList}
     \cup {[e |-> Var("s"), ctx |-> ("s" :> VS(s)), tag |-> "str"] : s \in Strings}
     \cup {[e |-> LS(s), ctx |-> EmptyFn, tag |-> "strlit"] : s \in Strings \ {<<>>}}
+    \cup {[e |-> Var("s"), ctx |-> ("s" :> VS(s)), tag |-> "longstr"] : s \in LongStrings}
     \cup {[e |-> Call("range", <<LI(a), LI(b)>>), ctx |-> EmptyFn, tag |-> "range2"] : a \in 0..3, b \in 0..3}
     \cup {[e |-> Call("range", <<Var("a"), Var("b"), Var("c")>>), ctx |-> ("a" :> VI(a)) @@ ("b" :> VI(b)) @@ ("c" :> VI(c)),
            tag |-> "range3"] : a \in -2..3, b \in -2..3, c \in {-2, -1, 1, 2}}
